@@ -9,10 +9,10 @@ from engine.util import chunks
 from spec import isa as I
 
 LEVEL = "exploration"
-RULE = ("altitude lattice -500..20000 m step 25 m (thorough 5 m) plus 11000 +- {1e-9,1e-6,1e-3,1} and the float "
+RULE = ("altitude lattice -500..20000 m step 25 m (thorough 0.25 m) plus 11000 +- {1e-9,1e-6,1e-3,1} and the float "
         "neighbours of 11000; speed lattice 0.5..450 m/s step 0.5; Mach 0.01..1.30 step 0.01; every (altitude, speed) "
         "pair through the ndarray path and a sub-lattice element-wise through the scalar path; coordinates on a 15-degree "
-        "(thorough 7.5) lattice incl. poles, antimeridian, coincident and antipodal pairs; argument buffers reused and updated in place between calls and returned arrays overwritten by the caller; distinct = lattice points")
+        "(thorough 3) lattice incl. poles, antimeridian, coincident and antipodal pairs; argument buffers reused and updated in place between calls and returned arrays overwritten by the caller; distinct = lattice points")
 ASSUMPTIONS = ["real-valued domain: nothing is claimed between lattice points",
                "ISA reference from ISO 2533 constants; tolerance 0.1 % as the property states",
                "round trips within 1e-7 relative (the (1+x)^3.5-1 form loses ~1e-10 at 0.5 m/s)",
@@ -25,7 +25,7 @@ M = np.arange(0.01, 1.3001, 0.01)
 
 
 def alts(thorough):
-    a = list(np.arange(-500.0, 20000.0001, 5.0 if thorough else 25.0))
+    a = list(np.arange(-500.0, 20000.0001, 0.25 if thorough else 25.0))
     for d in (1e-9, 1e-6, 1e-3, 1.0):
         a += [11000.0 - d, 11000.0 + d]
     x = y = 11000.0
@@ -83,8 +83,11 @@ def w_alt(arg):
         for i in range(0, V.size, 97):
             v = float(V[i])
             acc.n += 1
-            for f, arr in ((aero.tas2cas, cas), (aero.tas2eas, eas), (aero.tas2mach, mach)):
-                if rel(np.float64(f(v, H)), arr[i]) > 1e-9:
+            # tas2cas goes twice through the (1 + x)^k - 1 form: at 0.5 m/s one ulp of difference between numpy's scalar and
+            # vector pow is amplified to about 2e-9 relative (seen at 15 178.25 m on the 0.25 m lattice); the stated
+            # tolerance for the conversions is 1e-7
+            for f, arr, tol in ((aero.tas2cas, cas, 1e-7), (aero.tas2eas, eas, 1e-9), (aero.tas2mach, mach, 1e-9)):
+                if rel(np.float64(f(v, H)), arr[i]) > tol:
                     bad("conv:scalar_differs_from_array:%s" % f.__name__, H, v)
         acc.out.add(float(H))
     return acc.res()
@@ -245,16 +248,36 @@ def w_geo(arg):
     return acc.res()
 
 
+def w_special(step):
+    """antipodal, coincident and near-antipodal / near-coincident pairs (scalar path) for every point of a fine coordinate
+    lattice: the clamp of the cosine matters exactly there, and whether it is needed depends on how the products round."""
+    lats, lons = coords(step)
+    acc = Acc()
+    for lat1 in lats:
+        for lon1 in lons:
+            al, ao = -lat1, ((lon1 + 360) % 360) - 180
+            for lat2, lon2, tag in ((al, ao, "antipodal"), (lat1, lon1, "coincident"), (min(90.0, al + 1e-7), ao, "near_antipodal"),
+                                    (max(-90.0, lat1 - 1e-7), lon1, "near_coincident")):
+                acc.n += 1
+                s = judge_geo(lat1, lon1, lat2, lon2)
+                if s:
+                    acc.bad(s + ":" + tag, {"kind": "geo", "p": [lat1, lon1, lat2, lon2], "tag": tag})
+    acc.out.add(("special", step))
+    return acc.res()
+
+
 def w_any(t):
+    if t[0] == "s":
+        return w_special(t[1])
     return {"a": w_alt, "t": w_tropopause, "g": w_geo, "x": w_alias}[t[0]](t[1])
 
 
 def run(ctx):
     A = alts(ctx.thorough)
-    step = 7.5 if ctx.thorough else 15.0
+    step = 3.0 if ctx.thorough else 15.0
     lats, lons = coords(step)
     pts = [(a, b) for a in lats for b in lons] + [(10.0, 20.0), (52.3, 4.8), (-33.9, 151.2)]
-    tasks = [("t", None), ("x", None)] + [("a", c) for c in chunks(A, 16)] + [("g", (c, step)) for c in chunks(pts, 12)]
+    tasks = [("t", None), ("x", None), ("s", 3.0), ("s", 2.5)] + ([("s", 1.0), ("s", 0.5)] if ctx.thorough else []) + [("a", c) for c in chunks(A, 16)] + [("g", (c, step)) for c in chunks(pts, 12)]
     ctx.pmap(w_any, tasks)
     ctx.cov["altitudes"] = len(A)
     ctx.cov["speeds"] = int(V.size)
@@ -273,4 +296,4 @@ def replay(case):
     s = judge_geo(*case["p"])
     if not s:
         return []
-    return [(s, case), (s + ":antipodal", case), (s + ":coincident", case)]
+    return [(s, case), (s + ":antipodal", case), (s + ":coincident", case), (s + ":near_antipodal", case), (s + ":near_coincident", case)]
